@@ -138,7 +138,7 @@ Definition model_timestamp_rules_empty : bool :=
   end.
 Lemma writer_reduced_rules_agree :
   writer_float_rules_refused = model_float_rules_refused /\
-  writer_object_rules_empty = emits_typeless (TObject false (Some (OBR (Some 1%N) (Some 2%N)))) /\
-  writer_oneof_rules_empty = emits_typeless (TOneof true None) /\
+  writer_object_rules_empty = emits_typeless (TObject [66%N;97%N;114%N] false (Some (OBR (Some 1%N) (Some 2%N)))) /\
+  writer_oneof_rules_empty = emits_typeless (TOneof [67%N] true None) /\
   writer_timestamp_rules_empty = model_timestamp_rules_empty.
 Proof. repeat split; vm_compute; reflexivity. Qed.
